@@ -381,3 +381,51 @@ func c19r5(rc *core.RC) {
 		rc.Unknown("encoder/filterable-codes", token.NoPos, "found %d returns of ToOpcode methods of filterable Code types", n)
 	}
 }
+
+// ---- C19.R6 the first field of a struct is merged with its value opcode like every other field ----
+
+// headerOpcodes (first field) and fieldOpcodes (the others) fold the value's first opcode into the
+// field opcode; for single-opcode values (marshalers, scalars) the value opcode is then dropped, so
+// whatever the handlers read from it (FieldQuery, NumBitSize, PtrNum, the marshaler-context flag)
+// has to be copied. The twins must be the same up to the Head/Field naming.
+func c19r6(rc *core.RC) {
+	p := rc.P
+	a, b := p.Func("encoder", "StructFieldCode.headerOpcodes"), p.Func("encoder", "StructFieldCode.fieldOpcodes")
+	key := "encoder.(*StructFieldCode).headerOpcodes~fieldOpcodes/twins"
+	if a == nil || b == nil {
+		rc.Unknown(key, token.NoPos, "twins not found")
+		return
+	}
+	rc.Touch("encoder.(*StructFieldCode).headerOpcodes")
+	rc.Touch("encoder.(*StructFieldCode).fieldOpcodes")
+	opt := core.NormOpts{Subst: map[string]string{"optimizeStructHeader": "optimizeStructX", "optimizeStructField": "optimizeStructX", "IsMultipleOpHead": "IsMultipleOpX", "IsMultipleOpField": "IsMultipleOpX"}}
+	na := core.NormalStmts(p.Fset, p.Info(a), a.Body.List, opt)
+	nb := core.NormalStmts(p.Fset, p.Info(b), b.Body.List, opt)
+	if i := core.FirstDiff(na, nb); i >= 0 {
+		da, db := "<end>", "<end>"
+		if i < len(na) {
+			da = na[i]
+		}
+		if i < len(nb) {
+			db = nb[i]
+		}
+		rc.Bad(key, a.Pos(), "the first field and the other fields are merged with their value opcode differently at statement %d: `%s` (headerOpcodes) vs `%s` (fieldOpcodes); an attribute of the dropped value opcode (sub-query, bit size, pointer depth, context flag) reaches the handler only for one of them", i+1, oneLine(da), oneLine(db))
+	} else {
+		rc.OK(key, a.Pos(), "same %d statements up to the Head/Field naming", len(na))
+	}
+	// and FieldQuery is among what is carried over
+	carries := 0
+	for _, fd := range []*ast.FuncDecl{a, b} {
+		info := p.Info(fd)
+		ast.Inspect(fd.Body, func(m ast.Node) bool {
+			if as, ok := m.(*ast.AssignStmt); ok && len(as.Lhs) == 1 && len(as.Rhs) == 1 {
+				l, r := core.FieldOf(info, as.Lhs[0]), core.FieldOf(info, as.Rhs[0])
+				if l != nil && r != nil && l.Name() == "FieldQuery" && r.Name() == "FieldQuery" {
+					carries++
+				}
+			}
+			return true
+		})
+	}
+	rc.Check(carries == 2, "encoder.(*StructFieldCode).headerOpcodes~fieldOpcodes/carry-FieldQuery", a.Pos(), "both copy the value opcode's FieldQuery to the field opcode (%d of 2)", carries)
+}
